@@ -1,18 +1,141 @@
 package eventbus
 
-import "context"
+import (
+	"context"
+	"time"
+)
 
-//verif:entry property=C10 tier=both bounds="base position p in [0,10^18-3], two appends" cover="appended"
+//verif:entry property=C10 tier=both bounds="memory store, inductive step: base position p in [0,10^18-3], two appends; order also against every earlier position q<=p; strings compared digit by digit" cover="appended" numstr=off
 func harnessC10MemOffsetOrder() {
 	ctx := context.Background()
 	st := NewMemoryStore()
 	p := vInt(0, 999999999999999990)
+	q := vInt(0, p)
+	// offset of an arbitrary earlier position q (q = 0: nothing appended yet)
+	var oq Offset
+	if q > 0 {
+		st.nextOffset = int64(q - 1)
+		oq, _ = st.Append(ctx, &Event{Type: "q"})
+		st.events = nil
+	}
 	st.nextOffset = int64(p)
 	o1, err1 := st.Append(ctx, &Event{Type: "a"})
 	o2, err2 := st.Append(ctx, &Event{Type: "b"})
 	vAssert(err1 == nil && err2 == nil, "append-ok")
 	vAssert(o1 < o2, "offset-order")
 	vAssert(o1 != o2, "offset-unique")
-	vAssert(len(o1) == 20, "padded-width")
+	vAssert(o1 != OffsetOldest && o2 != OffsetOldest, "offset-not-oldest")
+	if q > 0 {
+		vAssert(oq < o1, "offset-order-vs-earlier")
+	}
+	vAssert(len(st.events) == 2 && st.events[0].Offset == o1 && st.events[1].Offset == o2, "stored-in-order")
 	vCover("appended")
+}
+
+type c10Rec struct {
+	typ  string
+	data []byte
+	ts   time.Time
+	off  Offset
+}
+
+// c10Fill appends n events with distinguishable payloads at a symbolic base position.
+func c10Fill(st *MemoryStore, n int) []c10Rec {
+	ctx := context.Background()
+	recs := make([]c10Rec, 0, n)
+	for i := 0; i < n; i++ {
+		r := c10Rec{typ: vStr("type"), data: []byte{'0' + byte(i)}, ts: vTime("ts")}
+		o, err := st.Append(ctx, &Event{Type: r.typ, Data: r.data, Timestamp: r.ts})
+		vAssert(err == nil, "append-ok")
+		r.off = o
+		recs = append(recs, r)
+	}
+	return recs
+}
+
+func c10Same(e *StoredEvent, r c10Rec) bool {
+	return e.Offset == r.off && e.Type == r.typ && string(e.Data) == string(r.data) && e.Timestamp.Equal(r.ts) && e.Timestamp.Location() == r.ts.Location()
+}
+
+//verif:entry property=C10 tier=both bounds="memory store: symbolic base position p in [0,10^18-8], log length n<=N, chain of R reads with limits in [-1,N+1], start index k<=n, each resume from next or from any returned event" cover="chain-done,resumed-from-event" N_quick=3 N_thorough=4 R_quick=2 R_thorough=3
+func harnessC10MemReadChain() {
+	N := vParam("N", 3)
+	R := vParam("R", 2)
+	ctx := context.Background()
+	st := NewMemoryStore()
+	st.nextOffset = int64(vInt(0, 999999999999999990))
+	n := vInt(0, N)
+	recs := c10Fill(st, n)
+	k := vInt(0, n)
+	from := OffsetOldest
+	if k > 0 {
+		from = recs[k-1].off
+	}
+	pos := k
+	for r := 0; r < R; r++ {
+		l := vInt(-1, N+1)
+		evs, next, err := st.Read(ctx, from, l)
+		vAssert(err == nil, "read-ok")
+		want := n - pos
+		if l > 0 && l < want {
+			want = l
+		}
+		vAssert(len(evs) == want, "read-count")
+		for i := 0; i < len(evs); i++ {
+			vAssert(c10Same(evs[i], recs[pos+i]), "read-order-and-content")
+		}
+		if len(evs) > 0 {
+			vAssert(next == evs[len(evs)-1].Offset, "next-is-last-returned")
+		}
+		if len(evs) > 0 && vBool() {
+			j := vInt(0, len(evs)-1)
+			from = evs[j].Offset
+			pos = pos + j + 1
+			vCover("resumed-from-event")
+		} else {
+			from = next
+			pos += len(evs)
+		}
+	}
+	// whatever is left comes back from one unlimited read, and the stream agrees
+	rest, _, err := st.Read(ctx, from, 0)
+	vAssert(err == nil && len(rest) == n-pos, "tail-complete")
+	i := 0
+	for ev, serr := range st.ReadStream(ctx, from) {
+		vAssert(serr == nil, "stream-ok")
+		vAssert(i < len(rest) && ev == rest[i], "stream-same-sequence")
+		i++
+	}
+	vAssert(i == len(rest), "stream-same-length")
+	vCover("chain-done")
+}
+
+//verif:entry property=C10 tier=both bounds="memory store: 3 SaveOffset calls with arbitrary (SMT string) subscription ids and offsets, load of an arbitrary id; two separately created stores" cover="loaded"
+func harnessC10MemOffsetsAndIsolation() {
+	ctx := context.Background()
+	s1, s2 := NewMemoryStore(), NewMemoryStore()
+	ids := []string{vStr("id0"), vStr("id1"), vStr("id2")}
+	offs := []Offset{Offset(vStr("o0")), Offset(vStr("o1")), Offset(vStr("o2"))}
+	for i := range ids {
+		vAssert(s1.SaveOffset(ctx, ids[i], offs[i]) == nil, "save-ok")
+	}
+	probe := vStr("probe")
+	want := OffsetOldest
+	for i := range ids {
+		if ids[i] == probe {
+			want = offs[i] // last write wins
+		}
+	}
+	got, err := s1.LoadOffset(ctx, probe)
+	vAssert(err == nil, "load-ok")
+	vAssert(got == want, "load-last-saved-or-oldest")
+	// the other store saw nothing
+	got2, err2 := s2.LoadOffset(ctx, probe)
+	vAssert(err2 == nil && got2 == OffsetOldest, "stores-isolated-offsets")
+	s1.Append(ctx, &Event{Type: "x"})
+	evs, _, _ := s2.Read(ctx, OffsetOldest, 0)
+	vAssert(len(evs) == 0, "stores-isolated-events")
+	evs1, _, _ := s1.Read(ctx, OffsetOldest, 0)
+	vAssert(len(evs1) == 1, "own-events-visible")
+	vCover("loaded")
 }
